@@ -83,13 +83,22 @@ func (f *VFile) WriteAt(p []byte, off int64) (int, error) {
 	*f.log = append(*f.log, VWrite{Name: f.name, Off: off, Data: append([]byte{}, p...)})
 	return copy(f.B[off:], p), nil
 }
-func (f *VFile) Close() error { return nil }
+func (f *VFile) Close() error {
+	f.mu.Lock()
+	if f.sto != nil {
+		f.sto.Closes++
+	}
+	f.mu.Unlock()
+	return nil
+}
 
 type VStorage struct {
 	mu       sync.Mutex
 	Files    map[string]*VFile
 	Writes   []VWrite
 	FailNext bool // the next WriteAt fails (once), like a full or failing disk
+	Opens    int
+	Closes   int
 }
 
 func NewVStorage() *VStorage { return &VStorage{Files: map[string]*VFile{}} }
@@ -97,6 +106,7 @@ func NewVStorage() *VStorage { return &VStorage{Files: map[string]*VFile{}} }
 func (s *VStorage) Open(name string, size int64) (storage.File, bool, error) {
 	s.mu.Lock()
 	defer s.mu.Unlock()
+	s.Opens++
 	if f, ok := s.Files[name]; ok {
 		if int64(len(f.B)) != size {
 			nb := make([]byte, size)
@@ -110,6 +120,31 @@ func (s *VStorage) Open(name string, size int64) (storage.File, bool, error) {
 	return f, false, nil
 }
 func (s *VStorage) RootDir() string { return "/vstorage" }
+
+// Delete removes a file (an external change made while the torrent is stopped).
+func (s *VStorage) Delete(name string) {
+	s.mu.Lock()
+	delete(s.Files, name)
+	s.mu.Unlock()
+}
+
+// Handles returns the number of files opened and not closed.
+func (s *VStorage) Handles() int {
+	s.mu.Lock()
+	defer s.mu.Unlock()
+	return s.Opens - s.Closes
+}
+
+// Clone copies the storage image (a crash snapshot).
+func (s *VStorage) Clone() *VStorage {
+	s.mu.Lock()
+	defer s.mu.Unlock()
+	c := NewVStorage()
+	for n, f := range s.Files {
+		c.Files[n] = &VFile{mu: &c.mu, B: append([]byte{}, f.B...), log: &c.Writes, name: n, sto: c}
+	}
+	return c
+}
 
 // ArmWriteError makes the next WriteAt fail.
 func (s *VStorage) ArmWriteError() {
@@ -483,6 +518,9 @@ const (
 	ClsSnub
 	ClsRam
 	ClsOther
+	ClsAlloc
+	ClsVerify
+	ClsStopped
 	ClsAll = ClsWrite | ClsPiece | ClsMsg | ClsDisc | ClsSnub | ClsRam | ClsOther
 )
 
@@ -514,7 +552,37 @@ func (v *VLoop) PumpEx(d time.Duration, cls int) (e VEvent) {
 	if cls&ClsRam != 0 {
 		ramC = t.ramNotifyC
 	}
+	var allocC chan *allocator.Allocator
+	var allocP chan allocator.Progress
+	var verC chan *verifier.Verifier
+	var verP chan verifier.Progress
+	var stoppedC chan struct{}
+	if cls&ClsAlloc != 0 {
+		allocC, allocP = t.allocatorResultC, t.allocatorProgressC
+	}
+	if cls&ClsVerify != 0 {
+		verC, verP = t.verifierResultC, t.verifierProgressC
+	}
+	if cls&ClsStopped != 0 {
+		stoppedC = t.announcersStoppedC
+	}
+again:
 	select {
+	case p := <-allocP:
+		t.bytesAllocated = p.AllocatedSize
+		goto again
+	case p := <-verP:
+		t.checkedPieces = p.Checked
+		goto again
+	case al := <-allocC:
+		e.Code = EvAllocDone
+		v.guard(func() { t.handleAllocationDone(al) })
+	case ve := <-verC:
+		e.Code = EvVerifyDone
+		v.guard(func() { t.handleVerificationDone(ve) })
+	case <-stoppedC:
+		e.Code = EvAnnouncersStopped
+		v.guard(func() { t.handleStopped() })
 	case pw := <-writeC:
 		e.Code, e.Index, e.HashOK, e.WErr = EvWriteDone, pw.Piece.Index, pw.HashOK, pw.Error != nil
 		if pe, ok := pw.Source.(*peer.Peer); ok {
@@ -630,6 +698,22 @@ func (v *VLoop) Start() { v.guard(func() { v.T.start() }) }
 // Stop issues the stop command.
 func (v *VLoop) Stop() { v.guard(func() { v.T.stop(nil) }) }
 
+// Verify issues the verify command.
+func (v *VLoop) Verify() { v.guard(func() { v.T.handleVerifyCommand() }) }
+
+// PersistedBitfield reads the bitfield stored in the resume database (nil when there is none).
+func (v *VLoop) PersistedBitfield(np int) []bool {
+	spec, err := v.S.resumer.Read(v.T.id)
+	if err != nil || spec == nil || len(spec.Bitfield) == 0 {
+		return nil
+	}
+	bits := make([]bool, np)
+	for i := 0; i < np && i/8 < len(spec.Bitfield); i++ {
+		bits[i] = spec.Bitfield[i/8]&(0x80>>uint(i%8)) != 0
+	}
+	return bits
+}
+
 // Snub delivers a snub-timer event for the peer.
 func (v *VLoop) Snub(p *VPeer) { v.guard(func() { v.T.handlePeerSnubbed(p.Pe) }) }
 
@@ -715,6 +799,9 @@ type VSnapshot struct {
 	Suspended   bool
 	Pending     []int // per peer: pending request count of its downloader (-1 none)
 	HasInfo     bool
+	DoVerify    bool
+	HasPieces   bool
+	Started     bool
 	InfoDl      []bool // per peer: has an info downloader
 	InfoSnubbed []bool
 }
@@ -781,6 +868,9 @@ func (v *VLoop) Snapshot() VSnapshot {
 	s.Completed = t.completed
 	s.Downloaders = len(t.pieceDownloaders)
 	s.HasInfo = t.info != nil
+	s.DoVerify = t.doVerify
+	s.HasPieces = t.pieces != nil
+	s.Started = t.errC != nil
 	s.Suspended = t.pieceMessagesC.ReceiveC() == nil
 	if t.session.ram != nil {
 		s.RamObjects = t.session.ram.Stats().AllocatedObjects
